@@ -12,6 +12,7 @@ import (
 
 	"verifharness/internal/drive"
 	"verifharness/internal/fw"
+	"verifharness/internal/refjson"
 	"verifharness/internal/rng"
 	"verifharness/internal/spec"
 )
@@ -127,7 +128,7 @@ func (e *errRender) value(s *spec.Spec) {
 				e.stray()
 				e.ws()
 			}
-			e.b.WriteString(strconv.Quote(k))
+			e.b.WriteString(refjson.Quote(k))
 			e.ws()
 			if e.site("K3") {
 				e.stray()
@@ -157,7 +158,7 @@ func (e *errRender) value(s *spec.Spec) {
 		case spec.Float:
 			e.b.WriteString(strconv.FormatFloat(s.F, 'e', -1, 64))
 		case spec.Str:
-			e.b.WriteString(strconv.Quote(s.S))
+			e.b.WriteString(refjson.Quote(s.S))
 		}
 	}
 }
@@ -197,7 +198,11 @@ func genLineTree(r *rng.R, root spec.Kind) *spec.Spec {
 			if k == spec.List {
 				s.L = append(s.L, v)
 			} else {
-				s.Set(spec.SafeKeys[r.Intn(len(spec.SafeKeys))]+strconv.Itoa(i), v)
+				key := spec.SafeKeys[r.Intn(len(spec.SafeKeys))] + strconv.Itoa(i)
+				if r.Chance(1, 8) {
+					key += string(rune([]int{0x2028, 0x2029, 0x85, 0x0b, 0x0c, 0xa0}[r.Intn(6)]))
+				}
+				s.Set(key, v)
 			}
 		}
 		return s
